@@ -805,6 +805,58 @@ def runLoadKeys (f : List String) (impl : String) : Ans :=
 
 def containsSub (s sub : String) : Bool := (s.splitOn sub).length > 1
 
+def runKind (kind : String) (f : List String) (impl : String) : Ans :=
+  if kind == "ba" then runBasic f impl
+  else if kind == "jw" then runJwt f impl
+  else if kind == "sl" then runSlink f impl
+  else if kind == "bg" then runBlockGlobal f impl
+  else if kind == "br" then runBlockReq f impl
+  else bad
+
+/-- fields of the normal op that installs conf `c` with the request part of the final op -/
+def reloadFields (kind : String) (c final : List String) : Option (List String) :=
+  if kind == "ba" || kind == "jw" || kind == "sl" then
+    match c, final with
+    | [p, rules], [_, _, req] => some [p, rules, req]
+    | _, _ => none
+  else if kind == "br" then
+    match c, final with
+    | [g, p, gr, pr], [_, _, _, _, cip] => some [g, p, gr, pr, cip]
+    | _, _ => none
+  else if kind == "bg" then
+    match c, final with
+    | [ranges], [ip, _] => some [ip, ranges]
+    | _, _ => none
+  else none
+
+def versionOK (v : String) : Bool :=
+  !v.isEmpty && v.length ≤ 16 && v.toList.all fun c => c.isAlphanum
+
+/-- `rl`: the history is only checked for well-formedness; the table after it is the LAST conf
+    (`tableAfter`, C51_reload_last_conf), so model and oracle are those of the final op. -/
+def runReload (f : List String) (impl : String) : Ans :=
+  match f with
+  | kind :: hist :: ver :: final =>
+    if !versionOK ver || hist.isEmpty then bad
+    else
+      let items := hist.splitOn "#"
+      let okItem (item : String) : Bool :=
+        match item.splitOn ";" with
+        | v :: c =>
+          versionOK v && !c.isEmpty &&
+          (match reloadFields kind c final with
+           | some fields =>
+             let a := runKind kind fields ""
+             a.model != "bad-op" && !a.model.startsWith "err:"
+           | none => false)
+        | [] => false
+      if !items.all okItem then bad
+      else
+        let a := runKind kind final impl
+        if a.model == "bad-op" then bad
+        else { a with tags := ["rl", "rl-" ++ kind] ++ a.tags.filter (· == "nt") }
+  | _ => bad
+
 def run (op impl : String) : Ans :=
   -- spellings that may coincide with the original for a particular checksum / token are refused by exec
   if impl == "bad-op" && (containsSub op "=mstd!" || containsSub op "=mcase" || containsSub op ".cpad:") then bad
@@ -817,6 +869,7 @@ def run (op impl : String) : Ans :=
     else if kind == "sl" then runSlink f impl
     else if kind == "bg" then runBlockGlobal f impl
     else if kind == "br" then runBlockReq f impl
+    else if kind == "rl" then runReload f impl
     else if kind == "lu" then runLoadUser f impl
     else if kind == "ls" then runLoadSlink f impl
     else if kind == "lb" then runLoadBlock f impl
